@@ -245,6 +245,13 @@ fn run_closed(c: &mut Ctx) {
         let coarse = Some(delta.abs() * c.rng.range(2.0, 6.0));
         if min_vertex_clearance(&raw, &n, d2) >= 0.9 * delta.abs() {
             let plane2 = Plane3::new(UnitVec3::new_normalize(n), d2);
+            // the call is tried in a sacrificial child first: if the tolerance leaked into the
+            // dependency's own snapping distance the traversal may not terminate
+            if let Probe::Died(why) = c.probe_in_child(1_000_000, 20) {
+                c.check("Mesh::section", "terminates whatever the curve tolerance", class, false, || format!("{why}; tolerance {:?}, plane {:e} from the nearest vertex", coarse, delta.abs()));
+                return;
+            }
+            c.check("Mesh::section", "terminates whatever the curve tolerance", class, true, String::new);
             let r = guard(|| mesh.section(&plane2, coarse).map(|v| v.iter().map(|cv| cv.points().to_vec()).collect::<Vec<_>>()));
             c.eval();
             match r {
